@@ -137,3 +137,23 @@ package codegen
 //@   mode bv
 //@   tags C12
 //@   order sort.Slice#1 [fs-input-locations] key x :: x
+//
+// ---- cbuffer packing size (C07) ---------------------------------------------------------
+//
+// HLSL packs a constant-buffer member directly after the *unpadded* end of the
+// previous one, so the size used for the explicit _padN members is the size
+// without tail padding: a matrix is (C-1) column strides plus one column; an
+// array is (N-1) strides plus the unpadded size of one element (recursively).
+//
+//@ func (*Writer).hlslTypeSize
+//@   mode bv
+//@   tags C07 C03
+//@   functional
+//@   pure
+//@   requires [module] w != nil && w.module != nil
+//@   ensures [scalar] int(handle) < len(w.module.Types) && is(w.module.Types[int(handle)].Inner, ir.ScalarType) ==> result == uint32(w.module.Types[int(handle)].Inner.(ir.ScalarType).Width)
+//@   ensures [vector] int(handle) < len(w.module.Types) && is(w.module.Types[int(handle)].Inner, ir.VectorType) ==> result == uint32(w.module.Types[int(handle)].Inner.(ir.VectorType).Size) * uint32(w.module.Types[int(handle)].Inner.(ir.VectorType).Scalar.Width)
+//@   ensures [struct] int(handle) < len(w.module.Types) && is(w.module.Types[int(handle)].Inner, ir.StructType) ==> result == w.module.Types[int(handle)].Inner.(ir.StructType).Span
+//@   at return assert [matrix] is(typ.Inner, ir.MatrixType) && typ.Inner.(ir.MatrixType).Rows >= 2 && typ.Inner.(ir.MatrixType).Rows <= 4 ==> result == (uint32(typ.Inner.(ir.MatrixType).Columns) - 1) * ite(typ.Inner.(ir.MatrixType).Rows == ir.Vec2, uint32(2), uint32(4)) * uint32(typ.Inner.(ir.MatrixType).Scalar.Width) + uint32(typ.Inner.(ir.MatrixType).Rows) * uint32(typ.Inner.(ir.MatrixType).Scalar.Width)
+//@   at return assert [array] is(typ.Inner, ir.ArrayType) && typ.Inner.(ir.ArrayType).Size.Constant != nil && *typ.Inner.(ir.ArrayType).Size.Constant != 0 && typ.Inner.(ir.ArrayType).Stride != 0 ==> result == (*typ.Inner.(ir.ArrayType).Size.Constant - 1) * typ.Inner.(ir.ArrayType).Stride + hlslTypeSize(w, typ.Inner.(ir.ArrayType).Base)
+//@   at return assert [array-runtime] is(typ.Inner, ir.ArrayType) && typ.Inner.(ir.ArrayType).Size.Constant == nil ==> result == hlslTypeSize(w, typ.Inner.(ir.ArrayType).Base)
